@@ -156,7 +156,7 @@ PLAN = {
     ),
     'C03': dict(verus=PARSERS + TOKS + GLUES, level='proof', assumptions=PARSER_ASSUME + TOK_ASSUME,
                 unclaimed=[]),
-    'C04': dict(verus=PARSERS + TOKS + GLUES, kani=['tables'], level='proof', assumptions=PARSER_ASSUME + TOK_ASSUME, unclaimed=[]),
+    'C04': dict(verus=PARSERS + TOKS + GLUES + ['i64-ast', 'f64-ast', 'number-ast', 'decimal-ast', 'complex-ast'], kani=['tables', 'f64-ast', 'number-ast', 'i64-ast'], level='proof', assumptions=PARSER_ASSUME + TOK_ASSUME, unclaimed=[]),
     'C12': dict(verus=PARSERS + TOKS + GLUES, level='proof', assumptions=PARSER_ASSUME + TOK_ASSUME, unclaimed=[]),
 }
 
